@@ -195,9 +195,10 @@ func (c *vsConn) SetWriteDeadline(t time.Time) error { return nil }
 // ---------------------------------------------------------------- one real session under the driver
 
 type vsRead struct {
-	n     int
-	err   error
-	bytes []byte
+	n      int
+	err    error
+	bytes  []byte
+	broken bool // the call panicked or returned an impossible count
 }
 
 type vsWorld struct {
@@ -217,6 +218,7 @@ type vsWorld struct {
 	pending   int
 	fedN      int
 	stuck     bool // a real call did not return: the behaviour cannot be continued
+	msgBytes  int  // bytes released as plain messages (the rest of expect came together with the error)
 }
 
 func vsNewWorld(m int, hbBytes []byte, interval time.Duration) (*vsWorld, error) {
@@ -231,13 +233,20 @@ func vsNewWorld(m int, hbBytes []byte, interval time.Duration) (*vsWorld, error)
 	w.timer.Stop()
 	go func() {
 		for b := range w.cmd {
-			buf := make([]byte, b)
-			n, err := w.sc.Read(buf)
-			if n < 0 || n > b {
-				n = 0
-				err = fmt.Errorf("vs: Read returned n out of range")
-			}
-			w.res <- vsRead{n, err, buf[:n]}
+			func() {
+				defer func() {
+					if r := recover(); r != nil {
+						w.res <- vsRead{0, fmt.Errorf("panic in SCTPConn.Read: %v", r), nil, true}
+					}
+				}()
+				buf := make([]byte, b)
+				n, err := w.sc.Read(buf)
+				if n < 0 || n > b {
+					w.res <- vsRead{0, fmt.Errorf("SCTPConn.Read returned n=%d for a %d-byte buffer", n, b), nil, true}
+					return
+				}
+				w.res <- vsRead{n, err, buf[:n], false}
+			}()
 		}
 	}()
 	// recvLoop must be sitting in Read before the first item is released
@@ -305,6 +314,10 @@ func (w *vsWorld) project() map[string]any {
 func (w *vsWorld) judge(r vsRead) (string, int) {
 	off := w.delivered
 	viol := ""
+	if r.broken {
+		w.stuck = true
+		return "StreamFidelity:read-broke", off
+	}
 	if r.n > 0 {
 		end := w.delivered + r.n
 		if end > len(w.expect) || !bytes.Equal(r.bytes, w.expect[w.delivered:end]) {
@@ -360,6 +373,7 @@ func (w *vsWorld) apply(step map[string]any, class int, wait time.Duration) (got
 		case "msg":
 			it = vsItem{data: w.content(n, class)}
 			w.expect = append(w.expect, it.data...)
+			w.msgBytes = len(w.expect)
 		case "err":
 			it = vsItem{data: w.content(n, 0), err: errVsStream}
 			w.expect = append(w.expect, it.data...)
@@ -481,24 +495,16 @@ func vsOps(beh []map[string]any) []string {
 	return ops
 }
 
-// vsSituation names the class of a property violation for the violation key
-func vsSituation(beh []map[string]any, upto int) string {
-	// which kind of data was outstanding when the error surfaced
-	queuedMsg, errData := false, false
-	for _, s := range beh[:upto+1] {
-		if s["a"] == "Feed" && s["k"] == "msg" {
-			queuedMsg = true
-		}
-		if s["a"] == "Feed" && s["k"] == "err" && s["n"].(float64) > 0 {
-			errData = true
-		}
-	}
+// situation names what was outstanding when a property violation was observed (part of the violation key)
+func (w *vsWorld) situation() string {
+	queued := w.delivered < w.msgBytes
+	withErr := len(w.expect) > w.msgBytes && w.delivered < len(w.expect)
 	switch {
-	case queuedMsg && errData:
+	case queued && withErr:
 		return "queued+with-error"
-	case errData:
+	case withErr:
 		return "with-error"
-	case queuedMsg:
+	case queued:
 		return "queued"
 	}
 	return "none"
@@ -509,7 +515,7 @@ func TestVerifStreamReplay(t *testing.T) {
 	defer out.Close()
 	m := vEnvInt("VERIF_M", 3)
 	workers := vEnvInt("VERIF_WORKERS", runtime.GOMAXPROCS(0))
-	maxMis := int64(vEnvInt("VERIF_MAXMIS", 400))
+	maxMis := int64(vEnvInt("VERIF_MAXMIS", 200))
 	hbBytes := []byte{0xFE, 0xFF}
 	if m < 2 {
 		hbBytes = hbBytes[:1]
@@ -535,43 +541,59 @@ func TestVerifStreamReplay(t *testing.T) {
 					continue
 				}
 				nb.Add(1)
-				w, err := vsNewWorld(m, hbBytes, time.Hour)
-				if err != nil {
-					t.Errorf("setup: %v", err)
-					continue
-				}
 				class := int((j.idx + vSeed()) % 4)
 				// Run the whole behaviour: the first divergence from the specification is a candidate; the
 				// property-level oracle decides whether the real code broke the property (a divergence of the
-				// projected state alone is a modelling difference, reported separately).
-				var first map[string]any
-				for i, step := range beh {
-					ns.Add(1)
-					got, viol, errText := w.apply(step, class, 400*time.Millisecond)
-					same := vCanon(vNorm(got)) == vCanon(step)
-					if !same && first == nil {
-						first = map[string]any{"step": i, "want": step, "got": vNorm(got), "ops": vsOps(beh[:i+1])}
-					}
-					if viol != "" {
-						nm.Add(1)
-						nprop.Add(1)
-						out.Emit(map[string]any{"kind": "mismatch", "beh": j.idx, "step": i, "want": step, "got": vNorm(got),
-							"prop": viol, "situation": vsSituation(beh, i), "err": errText, "ops": vsOps(beh[:i+1]), "class": class, "m": m,
-							"first": first})
-						first = nil
+				// projected state alone is a modelling difference, reported separately).  Only a call that
+				// did not return in time depends on timing: such a behaviour is run a second time with a much
+				// longer wait before anything is reported.
+				var rec map[string]any
+				for attempt, wait := range []time.Duration{300 * time.Millisecond, 1500 * time.Millisecond} {
+					w, err := vsNewWorld(m, hbBytes, time.Hour)
+					if err != nil {
+						t.Errorf("setup: %v", err)
 						break
 					}
-					if w.stuck {
+					rec = nil
+					var first map[string]any
+					for i, step := range beh {
+						if attempt == 0 {
+							ns.Add(1)
+						}
+						got, viol, errText := w.apply(step, class, wait)
+						same := vCanon(vNorm(got)) == vCanon(step)
+						if !same && first == nil {
+							first = map[string]any{"step": i, "want": step, "got": vNorm(got), "ops": vsOps(beh[:i+1])}
+						}
+						if viol != "" {
+							rec = map[string]any{"kind": "mismatch", "beh": j.idx, "step": i, "want": step, "got": vNorm(got),
+								"prop": viol, "situation": w.situation(), "err": errText, "ops": vsOps(beh[:i+1]), "class": class, "m": m,
+								"first": first, "attempt": attempt}
+							break
+						}
+						if w.stuck {
+							break
+						}
+					}
+					if rec == nil && first != nil {
+						first["kind"], first["beh"], first["prop"], first["class"], first["m"], first["attempt"] = "mismatch", j.idx, "", class, m, attempt
+						rec = first
+					}
+					stuck := w.stuck
+					w.close()
+					if !stuck {
 						break
 					}
 				}
-				if first != nil {
+				if rec != nil {
 					nm.Add(1)
-					nshape.Add(1)
-					first["kind"], first["beh"], first["prop"], first["class"], first["m"] = "mismatch", j.idx, "", class, m
-					out.Emit(first)
+					if rec["prop"] != "" {
+						nprop.Add(1)
+					} else {
+						nshape.Add(1)
+					}
+					out.Emit(rec)
 				}
-				w.close()
 			}
 		}()
 	}
@@ -672,7 +694,7 @@ func TestVerifStreamRandom(t *testing.T) {
 			out.Emit(got)
 			if viol != "" {
 				nviol++
-				out.Emit(map[string]any{"a": "PropertyViolation", "prop": viol, "situation": vsSituation(beh, len(beh)-1), "err": errText,
+				out.Emit(map[string]any{"a": "PropertyViolation", "prop": viol, "situation": w.situation(), "err": errText,
 					"ops": vsOps(beh), "got": got})
 				break
 			}
